@@ -256,6 +256,23 @@ def main():
                      'input': {'shape': shape, 'qdim': qd, 'bits': bits, 'symmetric': sym,
                                'scales': [float(x) for x in scs], 'zps': zps}})
         continue
+      # saturation: values far beyond the range (also beyond int64 when divided by the
+      # scale, also +-inf after the float32 division) end at the extreme codes
+      lo_s, hi_s = -(2 ** (bits - 1)) + (1 if sym else 0), 2 ** (bits - 1) - 1
+      for big in (1e15, 1e19, 1e24, 3e38):
+        for sign, want in ((1.0, hi_s), (-1.0, lo_s)):
+          try:
+            with np.errstate(all='ignore'):
+              qb = uqt.uniform_quantize(np.full(shape, sign * big, dtype=np.float32), p)
+            if not np.all(qb == want):
+              viol.append({'key': 'C17:saturation', 'what':
+                           f'{sign * big:g} quantizes to {np.unique(qb).tolist()} instead of saturating at {want} '
+                           f'({bits} bit, symmetric {sym}, scales {[float(x) for x in scs][:2]})',
+                           'input': {'shape': shape, 'qdim': qd, 'bits': bits, 'symmetric': sym, 'value': sign * big,
+                                     'scales': [float(x) for x in scs], 'zps': zps}})
+          except Exception as e:  # pylint: disable=broad-except
+            viol.append({'key': 'C17:rank-fixup-raises', 'what': f'{type(e).__name__}: {e}',
+                         'input': {'shape': shape, 'qdim': qd, 'bits': bits}})
       # every code survives dequantize -> quantize, whatever the parameter layout
       lo_c = -(2 ** (bits - 1)) + (1 if sym else 0)
       for code in (lo_c, 2 ** (bits - 1) - 1, 0, lo_c + 1):
